@@ -529,8 +529,9 @@ def reader_task(spec):
             main = O('throws') if mode == 'trunc' else (O('verdict') if op == 'VerifyFinished' else O('value'))
             tally.reach(main)
             tally.fail(main, key)
-            desc = ("%s<%s>: load of %s byte(s) at buffer offset %s lies outside [data, buffer_end_ptr_): stale bytes are decoded "
-                    "after FillBuffer() delivered fewer bytes than the decoder consumes; call chain %s"
+            desc = ("%s (entry point %s): load of %s byte(s) at buffer offset %s lies outside [data, buffer_end_ptr_): stale bytes are decoded "
+                    "after FillBuffer() delivered fewer bytes than the decoder consumes, the call returns normally instead of throwing "
+                    "EndOfStreamException and leaves buffer_ptr_ > buffer_end_ptr_; call chain %s"
                     % (fr[1] if len(fr) > 1 and fr[0].endswith('FastFromArray') else (fr[0] if fr else op), op, res.info.get('nbytes'),
                        res.info.get('off'), ' < '.join(fr[:4])))
             candidate(key, main, desc, res, 'ret' if mode == 'trunc' else 'any')
